@@ -36,10 +36,17 @@ def at(g, pts):
 
 
 def gcp_same(a, b) -> bool:
+    """Control-point boxes: same shape, CRS and number of control points, and the same pixel -> world mapping in the box's own pixel space (a zoomed / cropped box
+    comes back with its control points re-expressed in its own pixels, so the comparison is on what the box *means*, on a 6 x 6 probe grid incl. the corners)."""
     try:
-        ma, mb = a._mapping, b._mapping
-        return (tuple(a.shape) == tuple(b.shape) and a.crs == b.crs and ma._pix.shape == mb._pix.shape and np.allclose(ma._pix, mb._pix, rtol=0, atol=1e-6)
-                and np.allclose(ma._wld, mb._wld, rtol=0, atol=1e-9 * max(1.0, float(np.abs(mb._wld).max()))) and np.allclose(tuple(a._affine)[:6], tuple(b._affine)[:6], rtol=0, atol=1e-9))
+        if not (tuple(a.shape) == tuple(b.shape) and a.crs == b.crs and a._mapping._pix.shape == b._mapping._pix.shape):
+            return False
+        ny, nx = b.shape
+        jj, ii = np.meshgrid(np.linspace(0, nx, 6), np.linspace(0, ny, 6))
+        wa, wb = a.pix2wld(jj.ravel(), ii.ravel()), b.pix2wld(jj.ravel(), ii.ravel())
+        wa, wb = np.stack([np.asarray(wa[0]), np.asarray(wa[1])]), np.stack([np.asarray(wb[0]), np.asarray(wb[1])])
+        span = max(float(np.ptp(wb[0])), float(np.ptp(wb[1])), 1e-12)
+        return bool(np.isfinite(wa).all() and np.abs(wa - wb).max() <= 1e-6 * span + 1e-9 * float(np.abs(wb).max()))
     except Exception:
         return False
 
@@ -61,7 +68,24 @@ def make_box(rng: random.Random):
         from .c02 import make_gcp_box
 
         g, kind = make_gcp_box(rng)
-        return g, "gcp"
+        # derived boxes carry a pixel-side affine (scale, offset or both) on top of the control points
+        how = rng.choice(["plain", "plain", "zoom_out", "zoom_to", "crop", "pad", "crop+zoom", "zoom+crop"])
+        try:
+            if how == "zoom_out":
+                g = g.zoom_out(rng.choice([2, 3, 1.5]))
+            elif how == "zoom_to":
+                g = g.zoom_to((rng.randint(3, 40), rng.randint(3, 40)))
+            elif how == "crop":
+                g = g[rng.randint(0, 3): g.shape[0] - rng.randint(0, 3), rng.randint(1, 3): g.shape[1]]
+            elif how == "pad":
+                g = g.pad(rng.randint(1, 3), rng.randint(0, 2))
+            elif how == "crop+zoom":
+                g = g[2:, 1:].zoom_out(2)
+            elif how == "zoom+crop":
+                g = g.zoom_out(2)[1:, 1:]
+        except Exception:
+            how = "plain"
+        return g, "gcp" if how == "plain" else "gcp|" + how
     crs = rng.choice(["EPSG:3857", "EPSG:4326", "EPSG:32633", "EPSG:3857", None])
     shp = rng.choice([(1, rng.randint(1, 12)), (rng.randint(1, 12), 1), (1, 1), (rng.randint(2, 20), rng.randint(2, 20)), (rng.randint(2, 20), rng.randint(2, 20))])
     res = rng.choice([10.0, 0.25, 30.0, 0.01, 0.5, 1 / 3]) if crs != "EPSG:4326" else rng.choice([0.01, 0.25, 0.001, 1 / 3600])
@@ -275,7 +299,7 @@ def run(mon: Monitor, tier: str, seed: int, shard: int, nshards: int) -> None:
             except Exception as e:
                 mon.error(kind, e)
     mon.case = None
-    for pt, n in [("roundtrip", 600), ("history", 800), ("reproject", 150), ("reproject.dataset", 30), ("reproject.passthrough", 30), ("reproject.then-op", 150), ("roundtrip|gcp", 30), ("roundtrip|rotated|thin", 3),
+    for pt, n in [("roundtrip", 600), ("history", 800), ("reproject", 150), ("reproject.dataset", 30), ("reproject.passthrough", 30), ("reproject.then-op", 150), ("roundtrip|gcp", 20), ("roundtrip|gcp|zoom_out", 5), ("roundtrip|gcp|zoom_to", 5), ("roundtrip|gcp|crop+zoom", 5), ("roundtrip|rotated|thin", 3),
                   ("roundtrip|north-up|thin", 10), ("history|rotated|strided|reversed", 3), ("history|north-up|strided", 10), ("reproject|Dataset|cross|utm", 1), ("reproject|DataArray|cross|geobox", 10),
                   ("reproject|Dataset|cross|geobox", 5), ("reproject.dataset-attrs", 40)]:
         mon.floor(pt, n)
